@@ -238,7 +238,8 @@ def run(ctx):
                           ast.unparse(b)[:120], "if all(abs(best.y - y_i) >= H for y_i in <selected>[:, 1]): <select>", construct="unguarded selection")
     # ---- Z3: final sweep --------------------------------------------------------------------
     post = fi.node.body[k + 1:]
-    sweeps = [st for st in post if isinstance(st, ast.For)]
+    # the sweep: the loop after the selection that deletes from a container (another loop may build that container)
+    sweeps = [st for st in post if isinstance(st, ast.For) and any(isinstance(n, ast.Delete) for n in ast.walk(st))]
     if len(sweeps) != 1:
         res.error("Z3: final sweep loop not found")
     else:
